@@ -32,39 +32,39 @@ func init() {
 
 // ReqPlan is one request of a client connection.
 type ReqPlan struct {
-	Proto    string `json:"proto"`             // HTTP/1.0 | HTTP/1.1
-	Conn     string `json:"conn,omitempty"`    // Connection header
-	Body     int    `json:"body,omitempty"`    // request body length
-	Chunked  bool   `json:"chunked,omitempty"` // request body chunked (1.1)
-	Resp     int    `json:"resp"`              // response body length
-	SleepUs  int    `json:"sleep_us,omitempty"` // handler sleeps (simulated time)
-	Flush    bool   `json:"flush,omitempty"`   // handler flushes in the middle of the body
-	Yields   int    `json:"yields,omitempty"`
-	SplitCL  bool   `json:"split_cl,omitempty"` // handler announces Content-Length, then writes a few bytes and the rest separately
+	Proto   string `json:"proto"`              // HTTP/1.0 | HTTP/1.1
+	Conn    string `json:"conn,omitempty"`     // Connection header
+	Body    int    `json:"body,omitempty"`     // request body length
+	Chunked bool   `json:"chunked,omitempty"`  // request body chunked (1.1)
+	Resp    int    `json:"resp"`               // response body length
+	SleepUs int    `json:"sleep_us,omitempty"` // handler sleeps (simulated time)
+	Flush   bool   `json:"flush,omitempty"`    // handler flushes in the middle of the body
+	Yields  int    `json:"yields,omitempty"`
+	SplitCL bool   `json:"split_cl,omitempty"` // handler announces Content-Length, then writes a few bytes and the rest separately
 }
 
 // ClientPlan is one client connection.
 type ClientPlan struct {
 	Reqs     []ReqPlan `json:"reqs"`
-	Pipeline int       `json:"pipeline"` // requests written before the client starts waiting for answers
-	Piece    int       `json:"piece"`    // client write size (segmentation of the request stream)
+	Pipeline int       `json:"pipeline"`           // requests written before the client starts waiting for answers
+	Piece    int       `json:"piece"`              // client write size (segmentation of the request stream)
 	BadTail  bool      `json:"bad_tail,omitempty"` // after its requests the client sends a malformed request immediately followed by a valid one
 }
 
 // HTTPCase is a case of C10.
 type HTTPCase struct {
-	Sched   common.Sched  `json:"sched"`
-	K       kernel.Params `json:"kernel"`
-	IOMod   string        `json:"iomod"` // nonblocking | blocking | mixed
-	Mode    string        `json:"mode"`  // LT | ET | ONESHOT
-	NPoller int           `json:"npoller"`
-	Pool    int           `json:"pool"` // MessageHandlerPoolSize (0: inline executor)
-	MaxBlocking int       `json:"max_blocking,omitempty"`
-	Conns   []ClientPlan  `json:"conns"`
-	Track   bool          `json:"track,omitempty"` // C11: ownership-tracking allocators instead of the real pools
-	TLS     bool          `json:"tls,omitempty"`   // the server listens with TLS (llib, transformed); clients are crypto/tls clients
-	Side    string        `json:"side,omitempty"` // "" (server clauses) | client (client clause, see client.go)
-	Cli     *CliPlan      `json:"cli,omitempty"`
+	Sched       common.Sched  `json:"sched"`
+	K           kernel.Params `json:"kernel"`
+	IOMod       string        `json:"iomod"` // nonblocking | blocking | mixed
+	Mode        string        `json:"mode"`  // LT | ET | ONESHOT
+	NPoller     int           `json:"npoller"`
+	Pool        int           `json:"pool"` // MessageHandlerPoolSize (0: inline executor)
+	MaxBlocking int           `json:"max_blocking,omitempty"`
+	Conns       []ClientPlan  `json:"conns"`
+	Track       bool          `json:"track,omitempty"` // C11: ownership-tracking allocators instead of the real pools
+	TLS         bool          `json:"tls,omitempty"`   // the server listens with TLS (llib, transformed); clients are crypto/tls clients
+	Side        string        `json:"side,omitempty"`  // "" (server clauses) | client (client clause, see client.go)
+	Cli         *CliPlan      `json:"cli,omitempty"`
 }
 
 func closes(rp ReqPlan) bool {
@@ -229,7 +229,7 @@ func shrinkHTTP(ci interface{}) []interface{} {
 
 type quietLogger struct{ errs *[]string }
 
-func (q quietLogger) SetLevel(int)                  {}
+func (q quietLogger) SetLevel(int)                 {}
 func (q quietLogger) Debug(string, ...interface{}) {}
 func (q quietLogger) Info(string, ...interface{})  {}
 func (q quietLogger) Warn(string, ...interface{})  {}
@@ -343,7 +343,9 @@ type clientState struct {
 	written int // requests fully written
 }
 
-func runHTTP(t *testing.T, ci interface{}, trace bool) *common.Outcome { return runHTTPAs(t, ci, trace, "C10") }
+func runHTTP(t *testing.T, ci interface{}, trace bool) *common.Outcome {
+	return runHTTPAs(t, ci, trace, "C10")
+}
 
 func runHTTPAs(t *testing.T, ci interface{}, trace bool, prop string) *common.Outcome {
 	c := ci.(*HTTPCase)
@@ -686,7 +688,6 @@ func head(b []byte, n int) string {
 	}
 	return string(b)
 }
-
 
 // excludeHTTP implements the trigger exclusion of open known findings.
 func excludeHTTP(ci interface{}, open map[string]bool) bool {
